@@ -289,6 +289,7 @@ func (s *ShapeIndexIterator) Prev() bool {
 
 // End positions the iterator at the end of the index.
 func (s *ShapeIndexIterator) End() {
+	verifAccess(s.index, verifLocCells, false)
 	s.position = len(s.index.cells)
 	s.refresh()
 }
@@ -300,6 +301,7 @@ func (s *ShapeIndexIterator) Done() bool {
 
 // refresh updates the stored internal iterator values.
 func (s *ShapeIndexIterator) refresh() {
+	verifAccess(s.index, verifLocCells, false)
 	if s.position < len(s.index.cells) {
 		s.id = s.index.cells[s.position]
 		s.cell = s.index.cellMap[s.CellID()]
@@ -312,6 +314,7 @@ func (s *ShapeIndexIterator) refresh() {
 // seek positions the iterator at the first cell whose ID >= target, or at the
 // end of the index if no such cell exists.
 func (s *ShapeIndexIterator) seek(target CellID) {
+	verifAccess(s.index, verifLocCells, false)
 	s.position = sort.Search(len(s.index.cells), func(i int) bool {
 		return s.index.cells[i] >= target
 	})
@@ -670,11 +673,14 @@ func (s *ShapeIndex) Region() *ShapeIndexRegion {
 
 // Len reports the number of Shapes in this index.
 func (s *ShapeIndex) Len() int {
+	verifAccess(s, verifLocShapes, false)
 	return len(s.shapes)
 }
 
 // Reset resets the index to its original state.
 func (s *ShapeIndex) Reset() {
+	verifAccess(s, verifLocShapes, true)
+	verifAccess(s, verifLocCells, true)
 	s.shapes = make(map[int32]Shape)
 	s.nextID = 0
 	s.cellMap = make(map[CellID]*ShapeIndexCell)
@@ -684,6 +690,7 @@ func (s *ShapeIndex) Reset() {
 
 // NumEdges returns the number of edges in this index.
 func (s *ShapeIndex) NumEdges() int {
+	verifAccess(s, verifLocShapes, false)
 	numEdges := 0
 	for _, shape := range s.shapes {
 		numEdges += shape.NumEdges()
@@ -724,6 +731,7 @@ func (s *ShapeIndex) Shape(id int32) Shape { return s.shapes[id] }
 // By having each type extend S2Shape which has an id element, they all inherit their
 // own id field rather than having to track it themselves.
 func (s *ShapeIndex) idForShape(shape Shape) int32 {
+	verifAccess(s, verifLocShapes, false)
 	for k, v := range s.shapes {
 		if v == shape {
 			return k
@@ -734,6 +742,7 @@ func (s *ShapeIndex) idForShape(shape Shape) int32 {
 
 // Add adds the given shape to the index and returns the assigned ID..
 func (s *ShapeIndex) Add(shape Shape) int32 {
+	verifAccess(s, verifLocShapes, true)
 	s.shapes[s.nextID] = shape
 	s.nextID++
 	atomic.StoreInt32(&s.status, stale)
@@ -752,6 +761,7 @@ func (s *ShapeIndex) Remove(shape Shape) {
 	}
 
 	// Remove the shape from the shapes map.
+	verifAccess(s, verifLocShapes, true)
 	delete(s.shapes, id)
 
 	// We are removing a shape that has not yet been added to the index,
@@ -800,6 +810,7 @@ func (s *ShapeIndex) IsFresh() bool {
 
 // isFirstUpdate reports if this is the first update to the index.
 func (s *ShapeIndex) isFirstUpdate() bool {
+	verifAccess(s, verifLocPending, false)
 	// Note that it is not sufficient to check whether cellMap is empty, since
 	// entries are added to it during the update process.
 	return s.pendingAdditionsPos == 0
@@ -851,6 +862,7 @@ func (s *ShapeIndex) applyUpdatesInternal() {
 	}
 
 	s.pendingRemovals = s.pendingRemovals[:0]
+	verifAccess(s, verifLocPending, true)
 	s.pendingAdditionsPos = int32(len(s.shapes))
 	// It is the caller's responsibility to update the index status.
 }
@@ -1240,6 +1252,7 @@ func (s *ShapeIndex) makeIndexCell(p *PaddedCell, edges []*clippedEdge, t *track
 	}
 
 	// Add this cell to the map.
+	verifAccess(s, verifLocCells, true)
 	s.cellMap[p.id] = cell
 	s.cells = append(s.cells, p.id)
 
@@ -1473,6 +1486,7 @@ func (s *ShapeIndex) absorbIndexCell(p *PaddedCell, iter *ShapeIndexIterator, ed
 	// flagging the swap because newEdges is no longer used after
 	// this.
 	edges, newEdges = newEdges, edges // nolint
+	verifAccess(s, verifLocCells, true)
 	delete(s.cellMap, p.id)
 }
 
